@@ -20,7 +20,9 @@ import re
 import shutil
 import subprocess
 import sys
+import threading
 import time
+import uuid
 
 VERIF = os.path.dirname(os.path.dirname(os.path.abspath(__file__)))
 REPO = os.environ.get("VERIF_REPO", "/repo")
@@ -207,15 +209,50 @@ def tla_value(s):
 
 
 _tlc_counter = [0]
+_tlc_lock = threading.Lock()
+
+
+def _only_invariant(cfg, inv, cwd):
+    """A copy of cfg that checks only invariant `inv` (if cfg lists it among several): a vacuity guard
+    expecting one particular invariant must not depend on which of several violated invariants a
+    multi-worker BFS happens to report first."""
+    path = cfg if os.path.isabs(cfg) else os.path.join(cwd, cfg)
+    lines = open(path).read().splitlines()
+    out = []
+    listed = []
+    skipping = False
+    kw = re.compile(r"^\s*(CONSTANTS?|SPECIFICATION|VIEW|CHECK_DEADLOCK|CONSTRAINTS?|ACTION_CONSTRAINTS?|PROPERT(Y|IES)|INIT|NEXT|SYMMETRY|POSTCONDITION|ALIAS|INVARIANTS?)\b")
+    for l in lines:
+        if re.match(r"^\s*INVARIANTS?\b", l):
+            listed += l.split()[1:]
+            skipping = True
+            continue
+        if skipping and not kw.match(l) and l.strip() and not l.strip().startswith("\\*"):
+            listed += l.split()
+            continue
+        skipping = False
+        out.append(l)
+    if inv not in listed or len(listed) <= 1:
+        return cfg
+    out.append("INVARIANTS " + inv)
+    d = mkdir(os.path.join(BUILD, "cfg"))
+    np = os.path.join(d, "%s_only_%s_%d_%s.cfg" % (os.path.basename(cfg)[:-4], inv, os.getpid(), uuid.uuid4().hex[:8]))
+    with open(np, "w") as f:
+        f.write("\n".join(out) + "\n")
+    return np
 
 
 def tlc(module, cfg=None, workers=1, env=None, timeout=900, simulate=None, depth=None,
-        dfs=False, coverage=False, xmx="6g", extra=(), deadlock=True, cwd=SPEC, tag=None, seed=None):
+        dfs=False, coverage=False, xmx="6g", extra=(), deadlock=True, cwd=SPEC, tag=None, seed=None, expect=None):
     """Run TLC on spec/<module>.tla with spec/<cfg>.  Returns TlcResult.  Raises Infra on
     parse errors, TLC crashes and timeouts (a model that does not finish is an infrastructure
     problem, never a verdict)."""
-    _tlc_counter[0] += 1
-    meta = os.path.join(BUILD, "tlc", "%s_%d_%d" % (tag or module, os.getpid(), _tlc_counter[0]))
+    with _tlc_lock:
+        _tlc_counter[0] += 1
+        my_id = _tlc_counter[0]
+    if expect and cfg:
+        cfg = _only_invariant(cfg, expect, cwd)
+    meta = os.path.join(BUILD, "tlc", "%s_%d_%d_%s" % (tag or module, os.getpid(), my_id, uuid.uuid4().hex[:8]))
     shutil.rmtree(meta, ignore_errors=True)
     mkdir(meta)
     cmd = ["java", "-XX:+UseParallelGC", "-Xmx" + xmx, "-Xss16m"]
@@ -358,7 +395,7 @@ def compile_obj(src, obj, flags):
                 return obj, False
         except OSError:
             pass
-    suffix = ".tmp%d_%d" % (os.getpid(), _tlc_counter[0] + id(src) % 100000)
+    suffix = ".tmp%d_%s" % (os.getpid(), uuid.uuid4().hex[:8])
     tobj, tdep = obj + suffix + ".o", dep + suffix
     cmd = flags + ["-MMD", "-MF", tdep, "-MT", obj, "-c", src, "-o", tobj]
     t_start = time.time()
